@@ -213,7 +213,9 @@ def linear_equivalence(divisor1: CFDivisor, divisor2: CFDivisor) -> bool:
         True
     """
     # Condition 1: Divisors must be on the same graph (if not, return False)
-    if divisor1.graph != divisor2.graph:
+    # (compared structurally - same vertices and edge multiplicities - like CFDivisor.__eq__,
+    # so equal divisors on separately constructed but identical graphs are equivalent)
+    if divisor1.graph is not divisor2.graph and divisor1.graph.graph != divisor2.graph.graph:
         return False
 
     graph = divisor1.graph  # Graph for EWD
